@@ -219,3 +219,7 @@ PROPS["C12"]["full_statement_status"] += "; 'every client served completely' als
 # C08-c (stale-if-error on a force_revalidate rule: unbounded re-entry): witness / regression stream on sysc's machinery
 for _pid in ("C05", "C08", "C13"):
     PROPS[_pid]["streams"] += [S("kf.C08-c", 3, 3, 1)]
+
+# C09-g (negative stored lifetime + 304: unbounded re-entry): witness / regression stream on sysc's machinery
+for _pid in ("C05", "C09", "C13"):
+    PROPS[_pid]["streams"] += [S("kf.C09-g", 3, 3, 1)]
